@@ -1,21 +1,595 @@
 package main
 
+// Affine ownership discipline for *mangos.Message (property C17, DESIGN 8 C17).
+//
+// ghost own : Ref -> Int   = number of references to the message that this
+//                            activation holds and may consume.
+// Consuming operations (Free, channel send, go f(m), handing to a `takes`
+// parameter, successful Send*, storing into a field, MakeUnique, returning it)
+// need own >= 1 and decrement it; producing operations (NewMessage, Dup,
+// channel receive, Recv*, Clone) increment it. Reading or writing the fields of
+// a message needs own >= 1 unless the value was borrowed: a `borrows`
+// parameter, or a value loaded from a field / map / slice of a structure (the
+// structure holds that reference; this is the one place where double release
+// through two loads of the same field is not seen — listed as an assumption).
+// Dropping a message without Free is allowed (garbage collection).
+
 import (
+	"fmt"
+	"go/token"
 	"go/types"
+	"strings"
 
 	"golang.org/x/tools/go/ssa"
 )
 
-// Ownership discipline for *Message (C17). Filled in by own2.go.
+const ownHV = "ghost:own"
 
-func (t *fnTrans) ownStoreHook(in *ssa.Store, l *loc)                                      {}
-func (t *fnTrans) ownLoadHook(in *ssa.UnOp, l *loc)                                        {}
-func (t *fnTrans) ownCallHook(in ssa.Instruction, callee *ssa.Function, cc *ssa.CallCommon, res ssa.Value) {}
-func (t *fnTrans) ownInvokeHook(in ssa.Instruction, cc *ssa.CallCommon, res ssa.Value)     {}
-func (t *fnTrans) ownSendHook(in ssa.Instruction, v ssa.Value, x string, cond string)      {}
-func (t *fnTrans) ownRecvHook(in ssa.Instruction, v string, elem types.Type)               {}
-func (t *fnTrans) ownRecvHookIf(in ssa.Instruction, cond, v string, elem types.Type)       {}
-func (t *fnTrans) ownReturnHook(in *ssa.Return, rs []string)                               {}
-func (t *fnTrans) ownLoopHook(li *loopInfo)                                                {}
-func (t *fnTrans) ownBackEdgeHook(li *loopInfo)                                            {}
-func (t *fnTrans) ownSpawnHook(in ssa.Instruction, cc *ssa.CallCommon)                     {}
+func (g *Gen) isMsgPtr(t types.Type) bool {
+	p, ok := t.Underlying().(*types.Pointer)
+	if !ok {
+		return false
+	}
+	n, ok := types.Unalias(p.Elem()).(*types.Named)
+	return ok && n.Obj().Name() == "Message" && n.Obj().Pkg() != nil && n.Obj().Pkg().Path() == g.mod
+}
+
+func (t *fnTrans) ownGet(x string) string {
+	t.h.reg(ownHV, "(Array Int Int)")
+	return sel(t.h.get(t.cur, ownHV), x)
+}
+
+func (t *fnTrans) ownAdd(x string, d int, cond string) {
+	t.h.reg(ownHV, "(Array Int Int)")
+	cur := t.h.get(t.cur, ownHV)
+	nv := store(cur, x, fmt.Sprintf("(+ %s %d)", sel(cur, x), d))
+	if d < 0 {
+		nv = store(cur, x, fmt.Sprintf("(- %s %d)", sel(cur, x), -d))
+	}
+	t.h.set(t.cur, ownHV, ite(and(cond, "(not (= "+x+" 0))"), nv, cur))
+}
+
+// paramMode: how a *Message parameter of fn is passed: "takes", "cond" (taken iff the
+// error result is nil), "borrows".
+func (g *Gen) paramMode(fn *ssa.Function, name string, idx int) string {
+	if fc := g.contractOf(fn); fc != nil {
+		if fc.takes[name] {
+			return "takes"
+		}
+		if fc.borrows[name] {
+			return "borrows"
+		}
+		if fc.condTakes[name] {
+			return "cond"
+		}
+	}
+	return g.defaultMode(fn.Name(), fn.Signature, g.spawned[fn])
+}
+
+func (g *Gen) defaultMode(name string, sig *types.Signature, spawned bool) string {
+	if (name == "SendMsg" || name == "Send") && sig.Results().Len() == 1 && sig.Results().At(0).Type().String() == "error" {
+		return "cond"
+	}
+	if spawned && sig.Results().Len() == 0 {
+		return "takes"
+	}
+	return "borrows"
+}
+
+func (g *Gen) returnsOwned(name string, sig *types.Signature) bool {
+	if sig.Results().Len() == 0 || !g.isMsgPtr(sig.Results().At(0).Type()) {
+		return false
+	}
+	switch name {
+	case "RecvMsg", "Recv", "NewMessage", "Dup", "MakeUnique", "newMsg":
+		return true
+	}
+	return false
+}
+
+// computeSpawned: functions started with `go f(...)` somewhere in the module.
+func (g *Gen) computeSpawned() {
+	g.spawned = map[*ssa.Function]bool{}
+	for _, f := range g.allFuncs {
+		for _, b := range f.Blocks {
+			for _, in := range b.Instrs {
+				if gs, ok := in.(*ssa.Go); ok {
+					if callee := g.staticCallee(gs.Common()); callee != nil {
+						g.spawned[callee] = true
+					}
+				}
+			}
+		}
+	}
+}
+
+// borrowedVal: static judgement that v may be dereferenced without holding a count.
+func (t *fnTrans) borrowedVal(v ssa.Value) bool {
+	switch x := v.(type) {
+	case *ssa.Parameter:
+		for i, p := range t.fn.Params {
+			if p == x {
+				return t.g.paramMode(t.fn, p.Name(), i) == "borrows"
+			}
+		}
+	case *ssa.UnOp:
+		if x.Op == token.MUL {
+			switch x.X.(type) {
+			case *ssa.FieldAddr, *ssa.IndexAddr, *ssa.Global:
+				return true
+			case *ssa.FreeVar, *ssa.Alloc:
+				return t.capturedBorrow[x.X]
+			}
+		}
+	case *ssa.Lookup:
+		return true
+	case *ssa.Extract:
+		if _, ok := x.Tuple.(*ssa.Lookup); ok {
+			return true
+		}
+		if _, ok := x.Tuple.(*ssa.Next); ok {
+			return true
+		}
+	case *ssa.Field:
+		return t.borrowedStruct(x.X)
+	case *ssa.Phi:
+		all := true
+		for _, e := range x.Edges {
+			if c, ok := e.(*ssa.Const); ok && c.IsNil() {
+				continue
+			}
+			if e == v {
+				continue
+			}
+			if _, isPhi := e.(*ssa.Phi); isPhi || !t.borrowedVal(e) {
+				all = false
+			}
+		}
+		return all
+	case *ssa.FreeVar:
+		return false
+	}
+	return false
+}
+
+func (t *fnTrans) borrowedStruct(v ssa.Value) bool {
+	if u, ok := v.(*ssa.UnOp); ok && u.Op == token.MUL {
+		switch u.X.(type) {
+		case *ssa.FieldAddr, *ssa.IndexAddr:
+			return true
+		}
+	}
+	return false
+}
+
+func (t *fnTrans) ownRequire(kind, disc string, v ssa.Value, x string, pos token.Pos, what string) {
+	if t.borrowedVal(v) {
+		return
+	}
+	t.oblige(kind, disc+":"+t.describe(v), pos, or("(= "+x+" 0)", "(>= "+t.ownGet(x)+" 1)"), what)
+}
+
+// ---- hooks ----------------------------------------------------------------------------
+
+func (t *fnTrans) ownEntry() {
+	t.h.reg(ownHV, "(Array Int Int)")
+	init := "((as const (Array Int Int)) 0)"
+	for i, p := range t.fn.Params {
+		if !t.g.isMsgPtr(p.Type()) {
+			continue
+		}
+		switch t.g.paramMode(t.fn, p.Name(), i) {
+		case "takes", "cond":
+			init = store(init, t.val(p), "1")
+		}
+	}
+	t.assume(eq(t.h.get(t.cur, ownHV), init))
+}
+
+func (t *fnTrans) ownStoreHook(in *ssa.Store, l *loc) {
+	if !t.g.isMsgPtr(in.Val.Type()) {
+		return
+	}
+	if t.ownExempt() {
+		return
+	}
+	// overwriting a message field: this activation takes over the reference the structure held
+	if l.kind == locField && !(l.baseVal != nil && t.local[l.baseVal]) {
+		prev := t.load(l)
+		pn := t.c.define(t.c.fresh("prev"), "Int", prev)
+		t.ownAdd(pn, 1, not(eq(pn, t.val(in.Val))))
+	}
+	if c, ok := in.Val.(*ssa.Const); ok && c.IsNil() {
+		return
+	}
+	if l.kind == locCell && l.baseVal != nil {
+		if _, isAlloc := l.baseVal.(*ssa.Alloc); isAlloc {
+			if _, isSt := t.isStruct(l.typ); !isSt {
+				return // a local variable cell: not a transfer
+			}
+		}
+		if _, isFV := l.baseVal.(*ssa.FreeVar); isFV {
+			return
+		}
+	}
+	if l.kind != locField && l.kind != locElem && l.kind != locCell {
+		return
+	}
+	x := t.val(in.Val)
+	if l.baseVal != nil && t.local[l.baseVal] && l.kind != locElem {
+		return // building a local struct value: the transfer happens when it is sent / stored
+	}
+	// the structure takes over one reference
+	if !t.borrowedVal(in.Val) {
+		t.oblige("own.store", "store:"+l.fname+":"+t.describe(in.Val), in.Pos(), or("(= "+x+" 0)", "(>= "+t.ownGet(x)+" 1)"), "message stored into a structure without holding a reference to it")
+		t.ownAdd(x, -1, "true")
+	}
+}
+
+func (t *fnTrans) ownLoadHook(in *ssa.UnOp, l *loc) {}
+
+// field access of a message
+func (t *fnTrans) ownFieldUse(fa *ssa.FieldAddr, base string) {
+	if t.ownExempt() {
+		return
+	}
+	if !t.g.isMsgPtr(fa.X.Type()) {
+		return
+	}
+	if t.local[fa.X] {
+		return
+	}
+	st := fa.X.Type().Underlying().(*types.Pointer).Elem().Underlying().(*types.Struct)
+	fname := st.Field(fa.Field).Name()
+	if fname == "refcnt" {
+		return
+	}
+	t.ownRequire("own.use", "use:"+fname, fa.X, base, fa.Pos(), "message used without owning it (after release or hand-off)")
+}
+
+func (t *fnTrans) msgMethod(callee *ssa.Function) string {
+	if callee == nil || callee.Signature.Recv() == nil {
+		return ""
+	}
+	if !t.g.isMsgPtr(callee.Signature.Recv().Type()) {
+		return ""
+	}
+	return callee.Name()
+}
+
+// ownBuiltinCall handles the methods of Message and NewMessage; returns true if handled.
+func (t *fnTrans) ownMessageOp(in ssa.Instruction, callee *ssa.Function, cc *ssa.CallCommon, res ssa.Value) {
+	if t.ownExempt() {
+		return
+	}
+	switch t.msgMethod(callee) {
+	case "Free":
+		v := cc.Args[0]
+		x := t.val(v)
+		if !t.borrowedVal(v) {
+			t.oblige("own.release", "free:"+t.describe(v), in.Pos(), or("(= "+x+" 0)", "(>= "+t.ownGet(x)+" 1)"), "Free of a message this code does not own (double release or release after hand-off)")
+			t.ownAdd(x, -1, "true")
+		}
+		t.event("freed", x, "")
+	case "Clone":
+		v := cc.Args[0]
+		x := t.val(v)
+		t.ownRequire("own.use", "clone", v, x, in.Pos(), "Clone of a message that is not owned")
+		t.ownAdd(x, 1, "true")
+	case "MakeUnique":
+		v := cc.Args[0]
+		x := t.val(v)
+		if !t.borrowedVal(v) {
+			t.oblige("own.release", "makeunique:"+t.describe(v), in.Pos(), or("(= "+x+" 0)", "(>= "+t.ownGet(x)+" 1)"), "MakeUnique consumes the receiver; it is not owned here")
+			t.ownAdd(x, -1, "true")
+		}
+		if res != nil {
+			t.ownAdd(t.val(res), 1, "true")
+		}
+	case "Dup":
+		if res != nil {
+			t.ownFresh(t.val(res), "true")
+			t.ownAdd(t.val(res), 1, "true")
+		}
+	}
+	if callee != nil && callee.Name() == "NewMessage" && callee.Signature.Recv() == nil && res != nil && t.g.isMsgPtr(res.Type()) {
+		t.ownFresh(t.val(res), "true")
+		t.ownAdd(t.val(res), 1, "true")
+	}
+}
+
+func (t *fnTrans) ownArgs(in ssa.Instruction, name string, sig *types.Signature, modeOf func(i int, pname string) string, args []ssa.Value, res ssa.Value, argOffset int) {
+	if t.ownExempt() {
+		return
+	}
+	for i, a := range args {
+		if !t.g.isMsgPtr(a.Type()) {
+			continue
+		}
+		pi := i - argOffset
+		if pi < 0 || pi >= sig.Params().Len() {
+			continue
+		}
+		mode := modeOf(pi, sig.Params().At(pi).Name())
+		x := t.val(a)
+		switch mode {
+		case "takes":
+			{
+				t.oblige("own.handoff", "arg:"+name+":"+t.describe(a), in.Pos(), or("(= "+x+" 0)", "(>= "+t.ownGet(x)+" 1)"), "message handed to "+name+" (which takes ownership) without owning it")
+				t.ownAdd(x, -1, "true")
+			}
+		case "cond":
+			{
+				t.oblige("own.handoff", "arg:"+name+":"+t.describe(a), in.Pos(), or("(= "+x+" 0)", "(>= "+t.ownGet(x)+" 1)"), "message passed to "+name+" without owning it")
+				if res != nil {
+					r := t.vals[res]
+					if len(r) >= 1 {
+						t.ownAdd(x, -1, "(= (itag "+r[len(r)-1]+") 0)")
+					}
+				} else {
+					// result ignored: ownership unknown afterwards; assume taken
+					t.ownAdd(x, -1, "true")
+				}
+			}
+		}
+	}
+	if res != nil && t.g.returnsOwned(name, sig) {
+		r := t.vals[res]
+		if len(r) >= 1 {
+			t.ownFresh(r[0], "true")
+			t.ownAdd(r[0], 1, "true")
+		}
+	}
+}
+
+func (t *fnTrans) ownCallHook(in ssa.Instruction, callee *ssa.Function, cc *ssa.CallCommon, res ssa.Value) {
+	if callee == nil {
+		return
+	}
+	if t.msgMethod(callee) != "" || (callee.Name() == "NewMessage" && callee.Signature.Recv() == nil) {
+		t.ownMessageOp(in, callee, cc, res)
+		return
+	}
+	off := 0
+	if callee.Signature.Recv() != nil {
+		off = 1
+	}
+	t.ownArgs(in, callee.Name(), callee.Signature, func(i int, pname string) string {
+		return t.g.paramMode(callee, pname, i+off)
+	}, cc.Args, res, off)
+}
+
+func (t *fnTrans) ownInvokeHook(in ssa.Instruction, cc *ssa.CallCommon, res ssa.Value) {
+	sig := cc.Method.Type().(*types.Signature)
+	fc := t.g.ifaceContract(cc)
+	t.ownArgs(in, cc.Method.Name(), sig, func(i int, pname string) string {
+		if fc != nil {
+			if fc.takes[pname] {
+				return "takes"
+			}
+			if fc.borrows[pname] {
+				return "borrows"
+			}
+		}
+		return t.g.defaultMode(cc.Method.Name(), sig, false)
+	}, cc.Args, res, 0)
+}
+
+func (t *fnTrans) ownSendHook(in ssa.Instruction, v ssa.Value, x string, cond string) {
+	if t.ownExempt() {
+		return
+	}
+	if !t.g.isMsgPtr(v.Type()) {
+		// a struct value carrying messages (e.g. recvQEntry{m, p})
+		if st, ok := v.Type().Underlying().(*types.Struct); ok {
+			s := strings.Trim(t.sortOf(v.Type()), "|")
+			for i := 0; i < st.NumFields(); i++ {
+				if t.g.isMsgPtr(st.Field(i).Type()) {
+					fx := "(" + q(s+"."+st.Field(i).Name()) + " " + x + ")"
+					save := t.cur.reach
+					t.cur.reach = and(save, cond)
+					t.oblige("own.handoff", "send:"+t.describe(v)+"."+st.Field(i).Name(), in.Pos(), or("(= "+fx+" 0)", "(>= "+t.ownGet(fx)+" 1)"), "message sent on a channel (inside a struct) without owning it")
+					t.cur.reach = save
+					t.ownAdd(fx, -1, cond)
+				}
+			}
+		}
+		return
+	}
+	{
+		save := t.cur.reach
+		t.cur.reach = and(save, cond)
+		t.oblige("own.handoff", "send:"+t.describe(v), in.Pos(), or("(= "+x+" 0)", "(>= "+t.ownGet(x)+" 1)"), "message sent on a channel without owning it (double hand-off or use after release)")
+		t.cur.reach = save
+		t.ownAdd(x, -1, cond)
+	}
+}
+
+func (t *fnTrans) ownRecvHook(in ssa.Instruction, v string, elem types.Type) {
+	t.ownRecvHookIf(in, "true", v, elem)
+}
+
+func (t *fnTrans) ownRecvHookIf(in ssa.Instruction, cond, v string, elem types.Type) {
+	if t.ownExempt() {
+		return
+	}
+	if t.g.isMsgPtr(elem) {
+		t.ownFresh(v, cond)
+		t.ownAdd(v, 1, cond)
+		return
+	}
+	if st, ok := elem.Underlying().(*types.Struct); ok {
+		s := strings.Trim(t.sortOf(elem), "|")
+		for i := 0; i < st.NumFields(); i++ {
+			if t.g.isMsgPtr(st.Field(i).Type()) {
+				t.ownAdd("("+q(s+"."+st.Field(i).Name())+" "+v+")", 1, cond)
+			}
+		}
+	}
+}
+
+func (t *fnTrans) ownReturnHook(in *ssa.Return, rs []string) {
+	if t.ownExempt() {
+		return
+	}
+	sig := t.fn.Signature
+	// a returned message must be owned by the function (it passes to the caller)
+	if len(in.Results) > 0 && t.g.isMsgPtr(in.Results[0].Type()) && t.g.returnsOwned(t.fn.Name(), sig) {
+		v := in.Results[0]
+		if !t.borrowedVal(v) {
+			t.oblige("own.exit", "result:"+t.describe(v), in.Pos(), or("(= "+rs[0]+" 0)", "(>= "+t.ownGet(rs[0])+" 1)"), "returned message is not owned by the callee (released or handed off before return)")
+		}
+	}
+	// Send-like: on error the message is still the caller's
+	for i, p := range t.fn.Params {
+		if !t.g.isMsgPtr(p.Type()) {
+			continue
+		}
+		if t.g.paramMode(t.fn, p.Name(), i) != "cond" || len(rs) == 0 {
+			continue
+		}
+		errT := rs[len(rs)-1]
+		x := t.val(p)
+		t.oblige("own.exit", "error-keeps:"+p.Name(), in.Pos(), implies("(not (= (itag "+errT+") 0))", "(>= "+t.ownGet(x)+" 1)"), "on failure the message must still belong to the caller (it was released or handed off on an error path)")
+		// body intact on failure
+		bodyHV, _, _ := t.fieldHVByName(p.Type(), "Body")
+		if bodyHV != "" {
+			t.oblige("own.exit", "error-body:"+p.Name(), in.Pos(), implies("(not (= (itag "+errT+") 0))", eq(sel(t.h.get(t.cur, bodyHV), x), sel(t.h.get(t.entry, bodyHV), x))), "on failure the message body must be left as it was")
+		}
+	}
+}
+
+func (t *fnTrans) fieldHVByName(ptr types.Type, name string) (string, types.Type, bool) {
+	T := deref(ptr)
+	st, ok := T.Underlying().(*types.Struct)
+	if !ok {
+		return "", nil, false
+	}
+	for i := 0; i < st.NumFields(); i++ {
+		if st.Field(i).Name() == name {
+			hv, ft, _ := t.fieldHV(T, i)
+			return hv, ft, true
+		}
+	}
+	return "", nil, false
+}
+
+func (t *fnTrans) ownLoopHook(li *loopInfo) {}
+
+// a loop iteration must not consume references that existed before the loop
+func (t *fnTrans) ownBackEdgeHook(li *loopInfo) {
+	if _, used := t.h.sorts[ownHV]; !used {
+		return
+	}
+	head := t.siteState[fmt.Sprintf("loop%d:head", li.ord)]
+	if head == nil {
+		return
+	}
+	oh := t.h.get(head, ownHV)
+	ob := t.h.get(t.cur, ownHV)
+	if oh == ob {
+		return
+	}
+	r := q(t.c.fresh("r"))
+	t.oblige("own.balance", fmt.Sprintf("loop%d", li.ord), token.NoPos, fmt.Sprintf("(forall ((%s Int)) (>= (select %s %s) (select %s %s)))", r, ob, r, oh, r), "a loop iteration consumes a message reference it did not acquire in that iteration")
+}
+
+func (t *fnTrans) ownSpawnHook(in ssa.Instruction, cc *ssa.CallCommon) {
+	if t.ownExempt() {
+		return
+	}
+	if cc == nil {
+		return
+	}
+	callee := t.g.staticCallee(cc)
+	for i, a := range cc.Args {
+		if !t.g.isMsgPtr(a.Type()) {
+			continue
+		}
+		x := t.val(a)
+		_ = i
+		if true {
+			name := "fn"
+			if callee != nil {
+				name = callee.Name()
+			}
+			t.oblige("own.handoff", "go:"+name+":"+t.describe(a), in.Pos(), or("(= "+x+" 0)", "(>= "+t.ownGet(x)+" 1)"), "message handed to a new goroutine without owning it")
+			t.ownAdd(x, -1, "true")
+		} else {
+			name := "fn"
+			if callee != nil {
+				name = callee.Name()
+			}
+			t.oblige("own.handoff", "go:"+name+":"+t.describe(a), in.Pos(), "false", "a borrowed message is handed to a goroutine that outlives the loan")
+		}
+	}
+	// closures capturing a message variable: treated as borrowed inside the closure
+}
+
+
+// ownExempt: the functions that implement the reference count itself (message.go)
+// are outside the discipline they provide; their own contracts are functional (C01/C17).
+func (t *fnTrans) ownExempt() bool {
+	return t.contract != nil && t.contract.ownPrimitive
+}
+
+
+// ownFrame: code that does not own a message never writes it (that is what the
+// own.* sweep proves for every function), so a call cannot change Header/Body of a
+// message the caller owns and did not pass to it.
+func (t *fnTrans) ownFrame(pre *State, args []ssa.Value) {
+	if _, used := t.h.sorts[ownHV]; !used {
+		return
+	}
+	isArg := map[ssa.Value]bool{}
+	for _, a := range args {
+		isArg[a] = true
+	}
+	var T types.Type
+	for v := range t.vals {
+		if t.g.isMsgPtr(v.Type()) {
+			T = deref(v.Type())
+			break
+		}
+	}
+	if T == nil {
+		return
+	}
+	for _, fname := range []string{"Body", "Header"} {
+		hv, _, ok := t.fieldHVByName(types.NewPointer(T), fname)
+		if !ok {
+			continue
+		}
+		a, b := t.h.get(pre, hv), t.h.get(t.cur, hv)
+		if a == b {
+			continue
+		}
+		for v, terms := range t.vals {
+			if !t.g.isMsgPtr(v.Type()) || isArg[v] || len(terms) != 1 {
+				continue
+			}
+			if _, isConst := v.(*ssa.Const); isConst {
+				continue
+			}
+			x := terms[0]
+			owned := "(>= " + sel(t.h.get(pre, ownHV), x) + " 1)"
+			if p, isParam := v.(*ssa.Parameter); isParam && t.borrowedVal(p) {
+				owned = "true"
+			}
+			t.assume(implies(owned, eq(sel(b, x), sel(a, x))))
+		}
+	}
+}
+
+// ownFresh: a message handed to this activation as new (allocation, Dup, a
+// receive) is not one it already holds.
+func (t *fnTrans) ownFresh(r string, cond string) {
+	t.h.reg(ownHV, "(Array Int Int)")
+	cs := []string{"(= " + t.ownGet(r) + " 0)"}
+	for i, p := range t.fn.Params {
+		if t.g.isMsgPtr(p.Type()) && t.g.paramMode(t.fn, p.Name(), i) == "borrows" {
+			cs = append(cs, "(not (= "+r+" "+t.val(p)+"))")
+		}
+	}
+	t.assume(implies(and(cond, "(not (= "+r+" 0))"), and(cs...)))
+}
